@@ -867,6 +867,7 @@ def gen_history(rng, family, sess, maxops):
         if op is None:
             continue
         sess.step(op)
+        forced.extend(bare_dependency_followup(rng, sess, op))
         if op["op"] == "regfunc" and not sess.frozen:
             blk = sess.blocked(False)
             srcs = [r for _, t in op["body"] for r in ml.term_refs(t)
@@ -901,6 +902,9 @@ def draw(rng, g, sess, kind, pick):
             comparable(q, t) for _, ts, _ in mirror.writers() for t in ts)]
         g.nfunc += 1
         if kind == "regfunc":
+            special = draw_rare_func(rng, g, sess, free)
+            if special is not None:
+                return special
             if len(free) < 2:
                 return None
             tid = "#F%d" % g.nfunc
@@ -920,6 +924,7 @@ def draw(rng, g, sess, kind, pick):
                         seen.add(pkey(c))
                         alltars.append(c)
             return {"op": "regfunc", "id": tid, "body": body, "deps": deps, "tars": alltars}
+        free = [q for q in free if not under_whole_reader(mirror, q)]
         if len(free) < 3:
             return None
         tid = "#K%d" % g.nfunc
@@ -965,6 +970,89 @@ def draw(rng, g, sess, kind, pick):
         sess.last_genfun = args
         return {"op": "genfun", "args": [[q, rng.randint(-6, 9)] for q in args]}
     raise ValueError(kind)
+
+
+def whole_readers(mirror):
+    """containers that some function task names as a dependency WITHOUT naming the members it reads"""
+    out = []
+    for d in mirror.defs.values():
+        if d[0] == "func":
+            reads = [r for _, t in d[2] for r in ml.term_refs(t)]
+            out += [c for c in d[3] if any(len(r) > len(c) and r[:len(c)] == c for r in reads) and not any(pkey(r) == pkey(x) for r in reads for x in d[3])]
+    return out
+
+
+def under_whole_reader(mirror, q):
+    # a linear knob lists its targets alone (not the containers enclosing them): it would change a member behind the back
+    # of a task that declared only the container — a declaration the user got wrong, not a defect of the library
+    return any(len(q) > len(c) and q[:len(c)] == c for c in whole_readers(mirror))
+
+
+def draw_rare_func(rng, g, sess, free):
+    """shapes of function tasks the plain branch never makes: (a) a pure observer, no target at all; (b) dependencies given
+    as the nested locations alone, without the enclosing containers; (c) a task that reads a container as a whole — every
+    member — and names only the container (with what encloses it) as its dependency"""
+    x = rng.random()
+    if x >= 0.36:
+        return None
+    mirror, P = sess.mirror, g.P
+    tid = "#F%d" % g.nfunc
+    count = lambda what: sess.stats.__setitem__("rare:" + what, sess.stats.get("rare:" + what, 0) + 1)
+    if x < 0.12:
+        count("observer-without-targets")
+        q = rng.choice(P)
+        return {"op": "regfunc", "id": tid, "body": [], "deps": [q] if rng.random() < 0.5 else chain(q), "tars": []}
+    if not free:
+        return None
+    if x < 0.24 or not g.nested:
+        q = rng.choice(free)
+        body = [[q, g.term(q)]]
+        deps, seen = [], set()
+        for r in ml.term_refs(body[0][1]):
+            if pkey(r) not in seen:
+                seen.add(pkey(r))
+                deps.append(r)
+        count("function-task-with-bare-dependencies")
+        return {"op": "regfunc", "id": tid, "body": body, "deps": deps, "tars": chain(q)}
+    conts = {}
+    for q in P:
+        for c in chain(q)[:-1]:
+            conts.setdefault(pkey(c), (c, []))[1].append(q)
+    knob_tars = [t for d in mirror.defs.values() if d[0] == "knob" for t in d[4]]
+    cands = [(c, ms) for c, ms in conts.values() if len(ms) >= 2 and not any(t[:len(c)] == c for t in knob_tars)]
+    if not cands:
+        return None
+    c, ms = rng.choice(sorted(cands, key=lambda cm: pkey(cm[0])))
+    outside = [q for q in free if q[:len(c)] != c and not comparable(q, c)]
+    later = [q for q in outside if all(g.rank[pkey(q)] > g.rank[pkey(m)] for m in ms)]
+    if not outside:
+        return None
+    q = rng.choice(later or outside)
+    count("reader-of-a-whole-container")
+    return {"op": "regfunc", "id": tid, "body": [[q, _sum_term(ms)]], "deps": chain(c), "tars": chain(q)}
+
+
+def bare_dependency_followup(rng, sess, op):
+    """after a task whose only link to a nested location is the location itself (a linear knob's source, a function task's
+    bare dependency): now and then assign a sibling under the same container first (nothing to run), then the location"""
+    if op["op"] == "regknob":
+        srcs = [op["src"]]
+    elif op["op"] == "regfunc":
+        srcs = [q for q in op["deps"] if not any(pkey(c) in set(map(pkey, op["deps"])) for c in chain(q)[:-1])]
+    else:
+        return []
+    srcs = [q for q in srcs if len(q) > 2]
+    if not srcs or sess.frozen or rng.random() >= 0.5:
+        return []
+    src = rng.choice(srcs)
+    blk = sess.blocked(True)
+    ok = lambda q: pkey(q) not in sess.mirror.defs and not any(comparable(q, b) for b in blk)
+    sibs = [q for q in sess.P if q[:2] == src[:2] and q != src and ok(q)]
+    if not sibs or not ok(src):
+        return []
+    sess.stats["rare:sibling-then-bare-dependency"] = sess.stats.get("rare:sibling-then-bare-dependency", 0) + 1
+    return [{"op": "set", "path": rng.choice(sibs), "value": rng.randint(-6, 9)},
+            {"op": "set", "path": src, "value": rng.randint(-6, 9)}]
 
 
 def scenario_c13_container(hist_id, stats, failures):
@@ -1772,6 +1860,12 @@ def run_history(rng, family, hist_id, out_lines, stats, failures, maxops):
         except Exception as e:   # harness problem, not a verdict
             stats["twin_errors"] = stats.get("twin_errors", 0) + 1
             stats["twin_error_sample"] = repr(e)[:200]
+    if family == "c03" and not sess.frozen:
+        try:
+            twin_check_tasks(sess, stats, follow=3)
+        except Exception as e:   # harness problem, not a verdict
+            stats["twin_errors"] = stats.get("twin_errors", 0) + 1
+            stats["twin_error_sample"] = repr(e)[:200]
     out_lines.extend(sess.lines)
     return sess
 
@@ -1792,6 +1886,12 @@ def replay_ops(ops, hist_id, stats, failures, family="c01"):
             except Exception as e:
                 stats["twin_errors"] = stats.get("twin_errors", 0) + 1
                 stats["twin_error_sample"] = repr(e)[:200]
+    if family == "c03" and not sess.frozen:
+        try:
+            twin_check_tasks(sess, stats)
+        except Exception as e:
+            stats["twin_errors"] = stats.get("twin_errors", 0) + 1
+            stats["twin_error_sample"] = repr(e)[:200]
     return sess
 
 
@@ -1853,6 +1953,257 @@ def twin_check(rng, im, mirror, P, fail, stats, hist_id, via_dump=False, prop="C
 # ----------------------------------------------------------------------------
 # targeted scenarios (corpus): shapes the random generator reaches rarely or never
 # ----------------------------------------------------------------------------
+def _sum_term(paths):
+    t = ["ref", paths[0]]
+    for q in paths[1:]:
+        t = ["bin", "Add", t, ["ref", q]]
+    return t
+
+
+def shared_writer_corpus():
+    """locations with SEVERAL writers (the members of one nested container are written by different expression tasks, each
+    of which also lists the container as a target; two linear knobs adding to one target), one of the writers removed
+    (plain value / unregister / re-definition / in-place operator), and only THEN a definition made that reads the shared
+    location itself (a function task that sums the container as a whole and names the container as its dependency, an
+    expression over the knobs' target); afterwards the inputs of the REMAINING writers are assigned: C01 (pull model), C02
+    (the reader is downstream of the remaining writer in the declared graph), C03 (supports)"""
+    A, B, S, C_ = (["d", ["i", k]] for k in ("a", "b", "s", "c"))
+    mul = lambda p, c: ["bin", "Mul", ["ref", p], ["lit", c]]
+    add = lambda p, c: ["bin", "Add", ["ref", p], ["lit", c]]
+    removals = lambda Y: [[{"op": "set", "path": Y, "value": 7}], [{"op": "unregister", "id": Y}],
+                          [{"op": "setexpr", "path": Y, "expr": add(B, 1)}],
+                          [{"op": "iop", "iop": "Add", "path": Y, "operand": ["lit", 1]}],
+                          [{"op": "iop", "iop": "Mul", "path": Y, "operand": ["ref", A]}]]
+    tail = [{"op": "set", "path": A, "value": 5}, {"op": "set", "path": B, "value": 2}, {"op": "set", "path": A, "value": 6}]
+    # (container spec, path of the container, its members; the first two get definitions, the last stays plain)
+    shapes = [({"d": [["x", 0], ["y", 0], ["w", 4]]}, ["d", ["i", "n"]], [["i", "x"], ["i", "y"], ["i", "w"]]),
+              ({"l": [0, 0, 4]}, ["d", ["i", "n"]], [["i", 0], ["i", 1], ["i", 2]]),
+              ({"o": [["x", 0], ["y", 0], ["w", 4]]}, ["d", ["i", "n"]], [["a", "x"], ["a", "y"], ["a", "w"]])]
+    for spec, NN, steps in shapes:
+        X, Y, W_ = (NN + [s] for s in steps)
+        base = [{"op": "reset"},
+                {"op": "container", "label": "d", "value": {"d": [["a", 1], ["b", 1], ["s", 0], ["c", 0], ["n", spec]]}},
+                {"op": "setexpr", "path": X, "expr": mul(A, 2)}, {"op": "setexpr", "path": Y, "expr": mul(B, 3)}]
+        whole = {"op": "regfunc", "id": "#F1", "body": [[S, _sum_term([X, Y, W_])]], "deps": [NN], "tars": [S]}
+        for rem in removals(Y):
+            # the reader of the container as a whole, and a reader of the member that has no definition (it names the
+            # container among its dependencies: the declared graph puts it downstream of every writer of a member)
+            yield base + rem + [whole, {"op": "setexpr", "path": C_, "expr": add(W_, 1)}] + tail
+        # the same with the reader made BEFORE the writer is removed, and both writers removed in turn
+        yield base + [whole] + removals(Y)[0] + tail + [{"op": "unregister", "id": X}] + tail
+    # three levels: an expression on zz.hh.u also writes zz.hh and zz; zz.t writes zz
+    ZZ, HH = ["d", ["i", "zz"]], ["d", ["i", "zz"], ["i", "hh"]]
+    U, T = HH + [["i", "u"]], ZZ + [["i", "t"]]
+    base = [{"op": "reset"},
+            {"op": "container", "label": "d", "value": {"d": [["a", 1], ["b", 1], ["s", 0], ["c", 0],
+                                                             ["zz", {"d": [["hh", {"d": [["u", 0], ["v", 3]]}], ["t", 0]]}]]}},
+            {"op": "setexpr", "path": U, "expr": mul(A, 2)}, {"op": "setexpr", "path": T, "expr": mul(B, 3)}]
+    whole = {"op": "regfunc", "id": "#F1", "body": [[S, _sum_term([U, HH + [["i", "v"]], T])]], "deps": [ZZ], "tars": [S]}
+    yield base + [{"op": "set", "path": T, "value": 7}, whole] + tail
+    yield base + [{"op": "unregister", "id": U}, whole] + tail
+    yield base + [{"op": "iop", "iop": "Sub", "path": U, "operand": ["lit", 1]}, whole] + tail
+    # two linear knobs adding to one target; the first is removed before anything else happens (while both are registered
+    # the history is outside C01: overlapping writers), then an expression over the common target
+    S1, S2, T_ = (["d", ["i", k]] for k in ("s1", "s2", "t"))
+    kb = [{"op": "reset"}, {"op": "container", "label": "d", "value": {"d": [["s1", 0], ["s2", 0], ["t", 1], ["u", 2], ["c", 0]]}}]
+    k1 = {"op": "regknob", "id": "#K1", "src": S1, "ws": [1], "tars": [T_], "alltars": [T_]}
+    k2 = {"op": "regknob", "id": "#K2", "src": S2, "ws": [2], "tars": [T_], "alltars": [T_]}
+    k2b = {"op": "regknob", "id": "#K2", "src": S2, "ws": [2, -1], "tars": [["d", ["i", "u"]], T_], "alltars": [["d", ["i", "u"]], T_]}
+    ktail = [{"op": "setexpr", "path": C_, "expr": mul(T_, 10)}, {"op": "set", "path": S2, "value": 3}, {"op": "set", "path": S2, "value": 5}]
+    yield kb + [k1, k2, {"op": "unregister", "id": "#K1"}] + ktail
+    yield kb + [k2, k1, {"op": "unregister", "id": "#K1"}] + ktail
+    yield kb + [k1, k2b, {"op": "unregister", "id": "#K1"}] + ktail
+
+
+def bare_dependency_corpus():
+    """linear knobs (their only dependency is the source, given as it is) and function tasks whose declared dependency is a
+    NESTED location named alone, without the containers enclosing it; assignments to siblings under the same container
+    (which have nothing to run) before and after; then the dependency itself is assigned: every task that names it runs,
+    once (C02), the knob targets and function-task targets follow (C01)"""
+    A, Y, OUT = (["d", ["i", k]] for k in ("a", "y", "out"))
+    shapes = [({"d": [["k", 0], ["x", 0], ["t", 0]]}, [["i", "k"], ["i", "x"], ["i", "t"]]),
+              ({"l": [0, 0, 0]}, [["i", 0], ["i", 1], ["i", 2]]),
+              ({"o": [["k", 0], ["x", 0], ["t", 0]]}, [["a", "k"], ["a", "x"], ["a", "t"]])]
+    for spec, steps in shapes:
+        K, X, T = (["d", ["i", "n"]] + [s] for s in steps)
+        base = [{"op": "reset"},
+                {"op": "container", "label": "d", "value": {"d": [["a", 1], ["y", 0], ["out", 0], ["n", spec]]}}]
+        knob = {"op": "regknob", "id": "#K1", "src": K, "ws": [2], "tars": [Y], "alltars": [Y]}
+        knob_in = {"op": "regknob", "id": "#K1", "src": K, "ws": [2], "tars": [T], "alltars": [T]}
+        func = {"op": "regfunc", "id": "#F1", "body": [[Y, ["bin", "Mul", ["ref", K], ["lit", 10]]]], "deps": [K], "tars": [Y]}
+        watch = {"op": "regfunc", "id": "#F2", "body": [], "deps": [K], "tars": []}
+        sib = lambda v: {"op": "set", "path": X, "value": v}
+        dep = lambda v: {"op": "set", "path": K, "value": v}
+        for reader in ([knob], [func], [knob_in, watch], [func, watch]):
+            yield base + reader + [dep(1), sib(5), dep(3), sib(6), dep(4)]
+            yield base + [sib(5)] + reader + [dep(3), sib(6), dep(4)]
+            # an expression that reads inside the container comes and goes in between
+            yield base + reader + [{"op": "setexpr", "path": OUT, "expr": ["bin", "Add", ["ref", T], ["ref", A]]},
+                                   dep(1), {"op": "set", "path": A, "value": 2}, {"op": "set", "path": OUT, "value": 0},
+                                   sib(5), dep(3), sib(6), dep(4)]
+    # three levels deep: the dependency is zz.hh.u, the sibling lives directly under zz
+    U, V, T = ["d", ["i", "zz"], ["i", "hh"], ["i", "u"]], ["d", ["i", "zz"], ["i", "hh"], ["i", "v"]], ["d", ["i", "zz"], ["i", "t"]]
+    base = [{"op": "reset"}, {"op": "container", "label": "d", "value": {"d": [["a", 1], ["y", 0], ["zz", {"d": [["hh", {"d": [["u", 0], ["v", 0]]}], ["t", 0]]}]]}}]
+    knob = {"op": "regknob", "id": "#K1", "src": U, "ws": [3], "tars": [Y], "alltars": [Y]}
+    for s in (T, V):
+        yield base + [knob, {"op": "set", "path": s, "value": 5}, {"op": "set", "path": U, "value": 3},
+                      {"op": "set", "path": s, "value": 6}, {"op": "set", "path": U, "value": 4}]
+        yield base + [{"op": "set", "path": s, "value": 5}, knob, {"op": "set", "path": U, "value": 3}]
+
+
+def observer_corpus():
+    """function tasks with an EMPTY target set (pure observers: a callback on a location) next to definitions that read the
+    same location and are then removed, replaced or re-loaded: the observer keeps running on every later assignment to the
+    location (C02: it is in the triggered set), the indices stay what the surviving tasks declare and a fresh manager with
+    the surviving tasks reacts the same (C03)"""
+    X, Y, Z, W_ = (["d", ["i", k]] for k in "xyzw")
+    base = [{"op": "reset"}, {"op": "container", "label": "d", "value": {"d": [["x", 1], ["y", 0], ["z", 0], ["w", 0]]}}]
+    watch = {"op": "regfunc", "id": "#F1", "body": [], "deps": [X], "tars": []}
+    ydef = {"op": "setexpr", "path": Y, "expr": ["bin", "Mul", ["ref", X], ["lit", 2]]}
+    zdef = {"op": "setexpr", "path": Z, "expr": ["bin", "Add", ["ref", X], ["lit", 1]]}
+    tail = [{"op": "set", "path": X, "value": 5}, {"op": "refresh"}, {"op": "set", "path": X, "value": 7}]
+    for rem in ([{"op": "set", "path": Y, "value": 0}], [{"op": "unregister", "id": Y}],
+                [{"op": "setexpr", "path": Y, "expr": ["bin", "Add", ["ref", W_], ["lit", 1]]}],
+                [{"op": "load", "overwrite": True, "pairs": [[Y, ["bin", "Sub", ["ref", W_], ["lit", 1]]]]}]):
+        yield base + [watch, ydef] + rem + tail
+        yield base + [ydef, watch] + rem + tail
+        # two readers with targets: the index entry must survive the first removal and the second
+        yield base + [watch, ydef, zdef] + rem + [{"op": "set", "path": X, "value": 3}, {"op": "set", "path": Z, "value": 0}] + tail
+    # the other reader is a linear knob / a function task with targets
+    knob = {"op": "regknob", "id": "#K1", "src": X, "ws": [2], "tars": [Y], "alltars": [Y]}
+    func = {"op": "regfunc", "id": "#F2", "body": [[Y, ["bin", "Mul", ["ref", X], ["lit", 3]]]], "deps": [X], "tars": [Y]}
+    yield base + [watch, knob, {"op": "set", "path": X, "value": 2}, {"op": "unregister", "id": "#K1"}] + tail
+    yield base + [watch, func, {"op": "set", "path": X, "value": 2}, {"op": "unregister", "id": "#F2"}] + tail
+    # the observer watches a nested location (named with its enclosing container, as an expression would)
+    N, NX, NY = ["d", ["i", "n"]], ["d", ["i", "n"], ["i", "x"]], ["d", ["i", "n"], ["i", "y"]]
+    nb = [{"op": "reset"}, {"op": "container", "label": "d", "value": {"d": [["y", 0], ["n", {"d": [["x", 1], ["y", 2]]}]]}}]
+    nwatch = {"op": "regfunc", "id": "#F1", "body": [], "deps": [N, NX], "tars": []}
+    yield nb + [nwatch, {"op": "setexpr", "path": Y, "expr": ["bin", "Mul", ["ref", NX], ["lit", 2]]}, {"op": "set", "path": Y, "value": 0},
+                {"op": "set", "path": NX, "value": 5}, {"op": "set", "path": NY, "value": 6}, {"op": "cleanup"}, {"op": "set", "path": NX, "value": 7}]
+
+
+def scenario_whole_container_readers(hist_id, stats, failures):
+    """a definition that hands a whole container to a called function (oracle only: the model's expressions have no calls),
+    made after one of the definitions of the container's members was removed; then the inputs of the remaining member
+    definitions are assigned.  Pull model: every definition, re-evaluated by plain Python on the raw containers."""
+    import xdeps
+
+    def total(c):
+        if isinstance(c, dict):
+            return sum(c.values())
+        if isinstance(c, list):
+            return sum(c)
+        return sum(v for k, v in vars(c).items() if not k.startswith("_"))
+
+    class Obj:
+        def __init__(self, **kw):
+            self.__dict__.update(kw)
+
+    for shape in ("dict", "list", "object"):
+        for removal in ("value", "unregister", "redefine", "inplace", "none"):
+            inner = {"dict": lambda: {"x": 0, "y": 0, "w": 4}, "list": lambda: [0, 0, 4], "object": lambda: Obj(x=0, y=0, w=4)}[shape]()
+            raw = {"a": 1, "b": 1, "n": inner, "s": 0}
+            m = xdeps.Manager()
+            d = m.ref(raw, "d")
+            F = m.ref({"total": total}, "F")
+            if shape == "object":
+                rx, ry = d["n"].x, d["n"].y
+                gx, gy = (lambda: inner.x), (lambda: inner.y)
+            else:
+                kx, ky = ("x", "y") if shape == "dict" else (0, 1)
+                rx, ry = d["n"][kx], d["n"][ky]
+                gx, gy = (lambda kx=kx: inner[kx]), (lambda ky=ky: inner[ky])
+            defs = {}           # name -> (read the location, plain-Python definition on the raw containers)
+            m.set_value(rx, d["a"] * 2)
+            defs["x"] = (gx, lambda: raw["a"] * 2)
+            m.set_value(ry, d["b"] * 3)
+            defs["y"] = (gy, lambda: raw["b"] * 3)
+            if removal == "value":
+                m.set_value(ry, 7)
+                del defs["y"]
+            elif removal == "unregister":
+                m.unregister(ry)
+                del defs["y"]
+            elif removal == "redefine":
+                m.set_value(ry, d["b"] + 10)
+                defs["y"] = (gy, lambda: raw["b"] + 10)
+            elif removal == "inplace":
+                tmp = ry
+                tmp += 1
+                m.set_value(ry, tmp)
+                defs["y"] = (gy, lambda: raw["b"] * 3 + 1)
+            d["s"] = F["total"](d["n"]) * 2
+            defs["s"] = (lambda: raw["s"], lambda: total(inner) * 2)
+            for key, v in (("a", 5), ("b", 2), ("a", 6)):
+                d[key] = v
+                for name, (get, want) in defs.items():
+                    if get() != want():
+                        failures.append({"property": "C01", "kind": "stale", "hist": hist_id, "op_index": 0,
+                                         "detail": {"scenario": "definition reads a whole container whose members have several writers",
+                                                    "container": shape, "removed_by": removal, "assigned": [key, v], "location": name,
+                                                    "got": repr(get()), "want": repr(want())}, "known": None})
+                        return
+            stats["whole_container_reader_scenarios"] = stats.get("whole_container_reader_scenarios", 0) + 1
+
+
+def twin_check_tasks(sess, stats, follow=None):
+    """C03 for histories with function tasks (observers with no target included) and linear knobs: a fresh manager over
+    equal containers in which only the surviving definitions are registered — taken from the mirror of what the USER
+    defined — has the same index supports and reacts to every later assignment like the original: same exception, same
+    task executions (as a multiset of action calls and target writes), same contents"""
+    import xdeps.tasks as xt
+    im, mirror = sess.im, sess.mirror
+    if not mirror.defs or all(d[0] == "expr" for d in mirror.defs.values()):
+        return          # expression tasks only: twin_check
+    if any(l["impl"]["exc"] != "ok" for l in sess.lines) or mirror.dataflow_cyclic() or mirror.overlapping_targets():
+        return
+    if len(mirror.defs) != len(im.m.tasks):
+        return
+    tw = ml.ImplMgr()
+    for lab, c in im.roots.items():
+        tw.apply({"op": "container", "label": lab, "value": ml.val_json(c)})
+    for k, d in sorted(mirror.defs.items(), reverse=True):
+        if d[0] == "expr":
+            try:
+                tw.m.register(xt.ExprTask(tw.ref(d[1]), tw.build(d[2])))
+            except Exception:
+                return
+        elif d[0] == "func":
+            r = tw.apply({"op": "regfunc", "id": d[1], "body": d[2], "deps": d[3], "tars": d[4]})
+        else:
+            r = tw.apply({"op": "regknob", "id": d[1], "src": d[2], "ws": d[3], "tars": d[4]})
+        if d[0] != "expr" and r["impl"]["exc"] != "ok":
+            return
+    blk = sess.blocked(True)
+    cand = [q for q in sess.P if pkey(q) not in mirror.defs and not any(comparable(q, b) for b in blk)]
+    if follow is not None:
+        cand = cand[:follow]
+    stats["twin_task_checks"] = stats.get("twin_task_checks", 0) + 1
+    if ml.canon_sup(im.sup_json()) != ml.canon_sup(tw.sup_json()):
+        sess.fail("C03", "supports-differ-from-fresh", {"before_followup": True})
+        return
+    for i, p in enumerate(cand):
+        v = 11 + i
+        T, D = declared(tw)
+        cyc2 = has_two_cycle(T, D, triggered_set(T, D, p))
+        a = im.apply({"op": "set", "path": p, "value": v})["impl"]
+        b = tw.apply({"op": "set", "path": p, "value": v})["impl"]
+        if a["exc"] != b["exc"]:
+            sess.fail("C03", "followup-exception-differs", {"path": p, "history": a["exc"], "fresh": b["exc"]})
+            return
+        if a["exc"] != "ok" or cyc2:
+            return
+        if sorted(map(pkey, a["trace"])) != sorted(map(pkey, b["trace"])):
+            sess.fail("C03", "followup-executions-differ", {"path": p, "value": v, "history": a["trace"], "fresh": b["trace"]})
+            return
+        if ml.canon_val(a["store"]) != ml.canon_val(b["store"]):
+            sess.fail("C03", "followup-contents-differ", {"path": p, "value": v})
+            return
+        if ml.canon_sup(a["sup"]) != ml.canon_sup(b["sup"]):
+            sess.fail("C03", "supports-differ-from-fresh", {"path": p})
+            return
+
+
 def scenario_chain(n, hist_id, out_lines, stats, failures, reverse=False):
     """a chain of n dependants d[k1]=d[k0]+1, ...; definitions optionally consumer-before-producer.
     Only the final assignment is observed (observing every step would cost O(n^2))."""
@@ -2018,6 +2369,15 @@ def main():
         scenario_lookalike_replacement(hid, stats, failures); hid += 1
         scenario_d1(hid, lines, stats, failures); hid += 1
         scenario_d8(hid, stats, failures); hid += 1
+        for cname, corp in (("shared_writer_histories", shared_writer_corpus), ("bare_dependency_histories", bare_dependency_corpus),
+                            ("observer_histories", observer_corpus)):
+            for ops in corp():
+                sess = replay_ops(ops, hid, stats, failures, a.family)
+                lines.extend(sess.lines)
+                hid += 1
+                stats["histories"] += 1
+                stats[cname] = stats.get(cname, 0) + 1
+        scenario_whole_container_readers(hid, stats, failures); hid += 1
         for n in [int(x) for x in a.chains.split(",") if x]:
             scenario_chain(abs(n), hid, lines, stats, failures, reverse=n < 0); hid += 1
     for i in range(a.n):
